@@ -287,6 +287,11 @@ def run(ctx):
                   "the overload raise(%s) does not hand its complete argument pack to the exception constructor (%s): for the calls it is chosen for - e.g. a formatter as the first argument - the message "
                   "is no longer the concatenation of all arguments" % (", ".join((p0.get("type") or "?") for p0 in f.params), body), f, why_ok=body[0] if body else "")
     ctx.rule("R08.6", "no member of the formatter / exception machinery is declared noexcept and reaches a raise (an arity error has to be catchable whichever way the text is obtained)")
+    from .common import rule_fold_keeps_width
+    ctx.rule("R08.8", "a std fold in the format code starts from a value as wide as std::size_t (G-fold): a size summed up in int wraps for texts of 2 GiB and the string it "
+                      "sizes raises std::length_error although the argument count matches")
+    rule_fold_keeps_width(ctx, "R08.8", lambda f: f.file.endswith(("format/format.hpp", "except/exception.hpp", "except/raise.hpp")),
+                          "the total length of the argument texts is computed in 32 bits: str() raises (or under-allocates) for arguments of 2 GiB and more", minimum=5)
     from .common import rule_noexcept
     rule_noexcept(ctx, "R08.6", lambda f: f.file.endswith(("format/format.hpp", "except/exception.hpp", "except/raise.hpp")), "an arity mismatch has to raise", minimum=8)
     ctx.rule("R08.7", "no catch handler in the formatter / exception machinery lets an exception vanish: however the text is obtained (str(), conversion, operator<<, as an argument of raise) a wrong argument count reaches the caller")
